@@ -352,9 +352,11 @@ func cmdCheck(args []string) int {
 	for _, j := range jobs {
 		if j.Budget == 0 {
 			if tier == "thorough" {
-				j.Budget = 60 * time.Minute
+				j.Budget = 90 * time.Minute
 			} else {
-				j.Budget = 8 * time.Minute
+				// generous on purpose: on a quiet machine no quick job takes more than two minutes; the
+				// budget only decides when a loaded machine turns a verdict into "inconclusive"
+				j.Budget = 25 * time.Minute
 			}
 		}
 		if j.CrossCheckEvery == 0 {
